@@ -35,7 +35,7 @@ CHECKS = {
         text="Every well-formed table of the A/B/Cc/D family (all variance/bound/super-argument combinations) x universe of terms to nesting 2 x "
              "4 languages: the implementation's full subtype matrix is compared with the declarative relation - soundness everywhere, exactness, "
              "reflexivity, transitivity on the fragment, bottom below all; the spec's own relation is checked transitive on every table. "
-             "Exhaustive within the family in the thorough tier; quick samples 96 table/language cases.",
+             "The universe includes the built-in arrays and Kotlin's specialised arrays. Exhaustive within the family in the thorough tier; quick samples 96 table/language cases.",
         design_ref="DESIGN.md §4 C06",
         note="Trusted: TLC, term<->object conversion (round-trip checked). Known finding F11 (supertypes by textual substitution) is keyed by the "
              "spec predicate TextualDiffers; everything outside that shape is reported.",
@@ -66,7 +66,7 @@ CHECKS = {
         category="model_checking",
         technique="unifier contract in TLA+ (HUnify: substitute back, match up to open variables within bounds); TLC-generated tables, targets "
                   "and patterns; every non-empty result of the real unify_types validated by TLC",
-        text="Every (target, pattern) pair of universe x 26 patterns (repeated, bounded, projected, nested variables) x both modes per table; "
+        text="Every (target, pattern) pair of universe (nesting 2 in both tiers) x 33 patterns (repeated, bounded, projected, nested variables) x both modes per table; "
              "each non-empty assignment is substituted back by TLC and compared with the target or one of its supertypes, bounds checked.",
         design_ref="DESIGN.md §4 C10",
         note="Trusted: TLC, term conversion. One-directional (only non-empty results are constrained), as the property states.",
@@ -78,7 +78,10 @@ CHECKS = {
                   "switch settings; real helpers run under an exhaustive choice oracle; every outcome validated by TLC",
         text="38 400 cases (declarations with 1-3 parameters incl. chains T3:T2:T1 and Foo<T1> bounds x variances x all partial "
              "pre-assignments from a 7-term pool x 5 variance-choice settings x 4 switch settings x class/function) in the thorough tier, 3 000 "
-             "sampled in quick; each executed over every outcome of the helper's random choices up to a leaf budget.",
+             "sampled in quick; each executed over every outcome of the helper's random choices up to a leaf budget. Also the caller's options "
+             "(enable_pecs / disable_variance_functions / disable_variance: HTypeOps.EffChoices) on the built-in function types and ordinary classes; "
+             "EV of the helper calls real generation issues (incl. direct calls of the common core); generator scenes (HGenScene): "
+             "Generator._get_matching_class on TLC-enumerated symbol tables, every helper call and the resulting instantiation validated.",
         design_ref="DESIGN.md §4 C08",
         note="Trusted: TLC, term conversion, choice oracle. When a request targets a parameter tied to another by a bound, only the clauses that do "
              "not depend on the request are judged (the statement leaves the rewriting of the other assignments open).",
@@ -122,7 +125,9 @@ CHECKS = {
                   "dump_program/load_program on real programs; per-operation observational equality validated by TLC",
         text="Save point (generated / erased once / erased twice / overwritten) x every sequence of <=2 (thorough: <=3) follow-up operations "
              "(translate own / other language, erase, overwrite, dump-and-load again) plus random longer ones, for programs of all four "
-             "languages; each operation is applied to the original and to the loaded copy with the same random seed.",
+             "languages; each operation is applied to the original and to the loaded copy with the same random seed. Plus the driver's own saving "
+             "(hephaestus.save_program under --keep-all, batch and stored test cases): 3 408 scenarios of one driver iteration (HPipeline, incl. steps "
+             "that change the program but not its text) executed by the real gen_program; every saved source / .bin pair compared with the model.",
         design_ref="DESIGN.md §4 C13",
         note="Trusted: TLC, sha1 digests of translated text. Programs sampled by seed. Needs hook H1 for address-independent set iteration.",
     ),
@@ -158,7 +163,9 @@ CHECKS = {
                   "state per AST node; every typed position judged",
         text="192 (quick) / 1 200 (thorough) programs over 4 languages, default and sampled switch settings; clauses InitAssignable, "
              "ArgAssignable (constructor, super, call, reference call, default, array), ResultAssignable, AssignAssignable, "
-             "TypeArgWithinBound (every type occurrence), AbstractImplemented, OverrideCompatible, NoFinalSuper.",
+             "TypeArgWithinBound (every type occurrence), AbstractImplemented, OverrideCompatible, NoFinalSuper, OperandsComparable / OperandsBoolean. "
+             "Plus generator scenes (HGenScene, model_checking within the family): the member Generator._get_matching_class finds for a wanted type is "
+             "below it under the chosen instantiation; gen_comparison_expr asks for comparable operand types.",
         design_ref="DESIGN.md §4 C01, Appendix A",
         note="Exploration over seeds. The reference semantics is independent of type_utils.py and was cross-examined against the "
              "implementation in C06; it cannot be calibrated against kotlinc/groovyc/scalac (not installed).",
@@ -169,7 +176,8 @@ CHECKS = {
                   "variables in scope, fresh identifiers, hard keywords of the four languages); generated programs walked by TLC",
         text="Same runs as C01 with separate clauses: Resolved (variable, field, function, reference callee, class, assignment target), "
              "ArityAdmitted (defaults, named arguments, varargs), AssignTargetNonFinal, InstantiatedConcrete, TypeVarsInScope, FreshInScope, "
-             "NotReserved.",
+             "NotReserved. Plus generator scenes (HGenScene): Generator._remove_unused_type_params on every small generic function header - used "
+             "type parameters kept, no remaining bound mentions a removed one.",
         design_ref="DESIGN.md §4 C05",
         note="Exploration over seeds. Reserved-word sets are the languages' hard keywords, written in the spec (not read from src/resources).",
     ),
@@ -179,7 +187,8 @@ CHECKS = {
                   "before/after walks of the real TypeErasure; the erased program re-checked by the HTyping stack machine in inference mode",
         text="Frame: every field of every AST node identical except removed variable types, return types and inferable flags, for the first and a "
              "second application of the erasure. Inferability: the erased program has no typing/scoping violation it did not have before, with "
-             "omitted variable types inferred from initializers and omitted constructor type arguments solved from expected type / arguments.",
+             "omitted variable types inferred from initializers and omitted constructor type arguments solved from expected type / arguments; a function "
+             "whose return type was removed must not be called (also through a receiver) from its own body (ReturnNotInferable.Recursive).",
         design_ref="DESIGN.md §4 C03, Appendix B",
         note="Exploration over seeds (80 / 800 programs). One open finding (NarrowedByErasure) keyed by a predicate computed in the walk.",
     ),
@@ -199,7 +208,7 @@ CHECKS = {
         technique="javac observed as the environment process of the driver model: TLA+ contract of Compile events (HJavac: PassOracle, "
                   "BatchIndependent), TLC-generated batch schedules, real JavaTranslator + real javac 17 + real output analysis, recorded events "
                   "validated by TLC (HJavacTrace)",
-        text="72 (quick) / 960 (thorough) Java programs - generated and erased - compiled alone and in TLC-chosen batches and orders; no "
+        text="72 (quick) / 960 (thorough) Java programs - generated and erased, both through one translator object as the driver does - compiled alone and in TLC-chosen batches and orders; no "
              "expected-pass file may be rejected and a file's verdict may not depend on its batch.",
         design_ref="DESIGN.md §4 C02",
         note="The property is by definition about javac's verdict; the spec contributes the oracle contract and the schedules, not a model of Java. "
@@ -207,14 +216,21 @@ CHECKS = {
     ),
     "C12": dict(
         category="exploration",
-        technique="expected occurrence counts of declaration facts computed in TLA+ from the program's walk (HInventory); real translators; "
-                  "textual probes (one pattern per fact kind and language) counted by the harness; TLC compares expectation and measurement",
-        text="Generated, erased and overwritten programs x 4 languages: every class declared once; function headers (Kotlin, Scala); typed / "
-             "untyped variable and field declarations (the presence bit of every erased or overwritten annotation); inferable constructor calls "
-             "without explicit type arguments; every string literal; balanced brackets.",
+        technique="declaration surface in TLA+ (HSurface: the concrete syntax of types, type parameters, inheritance clauses, parameters, "
+                  "modifiers of the four languages; TLC renders what every header must say and compares it with the header cut out of the real "
+                  "translation by a lexer) + expected occurrence counts of declaration / literal / operator facts (HInventory) + TLC-enumerated "
+                  "expression shapes (HExprGen) through the real translators",
+        text="Generated, erased and overwritten programs x 4 languages (96 / 960 programs x 3 stages): per declared name the bag of class / function / "
+             "field / variable headers - kind, finality, abstractness, override, type parameters with variance and bounds, extends / implements "
+             "clauses, constructor fields, parameter names / types / varargs, declared return, variable and field types iff carried - equals the "
+             "bag TLC renders from the program; no header beyond the program's; counts of typed / untyped declarations, inferable constructor "
+             "calls, explicit call type arguments (Kotlin, Scala), string and numeric literals, operators, parameter names; bracket balance. "
+             "Plus every binary expression over 12 operand kinds x 6 operators as a real program through the four translators "
+             "(model_checking within that family).",
         design_ref="DESIGN.md §4 C12, Appendix C",
-        note="The textual patterns are trusted code. Not judged: function headers and typed-variable counts for Java/Groovy, explicit type arguments "
-             "of generic method calls, modifiers, supertypes and bounds (the count-based inventory does not parse headers).",
+        note="The lexer / header splitter (harness/surface.py) and the textual count patterns (harness/scan.py) are trusted code. Not judged: local "
+             "functions of Java / Groovy (printed as lambdas / closures), explicit type arguments of generic method calls in Java / Groovy (never "
+             "printed - pre-study F5), expression structure beyond the presence of literals, operators and names.",
     ),
 }
 
